@@ -375,8 +375,25 @@ func (op C17Op) runHold(sp *saml2.SAMLServiceProvider, hd *holder) string {
 		if err != nil {
 			return "error: " + err.Error()
 		}
-		hd.keepVal(op.Kind, md)
 		b, _ := xml.Marshal(md)
+		if op.Mut && md.SPSSODescriptor != nil {
+			// the caller edits its copy in place: later results must not show it
+			d := md.SPSSODescriptor
+			for i := range d.KeyDescriptors {
+				for j := range d.KeyDescriptors[i].EncryptionMethods {
+					d.KeyDescriptors[i].EncryptionMethods[j].Algorithm = "urn:edited"
+				}
+				for k := range d.KeyDescriptors[i].KeyInfo.X509Data.X509Certificates {
+					d.KeyDescriptors[i].KeyInfo.X509Data.X509Certificates[k].Data = "ZWRpdGVk"
+				}
+			}
+			for j := range d.AssertionConsumerServices {
+				d.AssertionConsumerServices[j].Location = "https://edited.example/"
+			}
+			md.EntityID = "edited"
+		} else {
+			hd.keepVal(op.Kind, md)
+		}
 		return string(b)
 	case "metadata-slo":
 		md, err := sp.MetadataWithSLO(int64(len(op.Arg)))
@@ -384,6 +401,18 @@ func (op C17Op) runHold(sp *saml2.SAMLServiceProvider, hd *holder) string {
 			return "error: " + err.Error()
 		}
 		b, _ := xml.Marshal(md)
+		if op.Mut && md.SPSSODescriptor != nil {
+			for i := range md.SPSSODescriptor.KeyDescriptors {
+				ms := md.SPSSODescriptor.KeyDescriptors[i].EncryptionMethods
+				for j := range ms {
+					ms[j].Algorithm = "urn:edited"
+				}
+				md.SPSSODescriptor.KeyDescriptors[i].EncryptionMethods = ms[:0]
+			}
+			for j := range md.SPSSODescriptor.SingleLogoutServices {
+				md.SPSSODescriptor.SingleLogoutServices[j].Location = "https://edited.example/"
+			}
+		}
 		return string(b)
 	case "validate":
 		r, err := sp.ValidateEncodedResponse(in)
